@@ -311,3 +311,28 @@ Proof.
     + rewrite <- Z.negb_odd in E. apply negb_false_iff in E. apply Z.odd_spec in E.
       destruct E as [k ->]. Z.div_mod_to_equations; lia.
 Qed.
+
+(** ** sysbytes.go: the System Bytes generator.  [sysBytesGen.next] is translated state-passing
+    (it returns its updated receiver): the new counter is [next_sys] of Hsms/Responder.v (old + 1
+    modulo 2^32) and the bytes handed out are that value big-endian. Sequential semantics of the
+    atomic counter; what is tied is the arithmetic. *)
+From GoSecs Require Hsms.Responder Hsms.HeaderProofs.
+
+Lemma bridge_sysBytesGen_next n : 0 <= n < 4294967296 ->
+  Gen2.hsms.sysBytesGen_next (Some (Gen2.hsms.mk_sysBytesGen n)) =
+  GOk (Some (Gen2.hsms.mk_sysBytesGen (Responder.next_sys n)), be32 (Responder.next_sys n)).
+Proof.
+  intros H. unfold Gen2.hsms.sysBytesGen_next. cbn [go_deref gbind Gen2.hsms.sysBytesGen_n].
+  cbv zeta. change (go_zeros 4) with [0; 0; 0; 0]. rewrite be_put_4. reflexivity.
+Qed.
+
+(** the value handed out decodes (as [FromSystemBytes] does) to the counter: ids are consecutive *)
+Lemma sysBytesGen_next_id n : 0 <= n < 4294967296 ->
+  exists g' b, Gen2.hsms.sysBytesGen_next (Some (Gen2.hsms.mk_sysBytesGen n)) = GOk (Some g', b) /\
+    Gen2.hsms.sysBytesGen_n g' = (n + 1) mod 4294967296 /\
+    Gen2.hsms.FromSystemBytes b = GOk ((n + 1) mod 4294967296).
+Proof.
+  intros H. rewrite bridge_sysBytesGen_next by exact H. eexists _, _. split; [reflexivity|]. split; [reflexivity|].
+  unfold Responder.next_sys, be32, Gen2.hsms.FromSystemBytes. rewrite be_get_4. cbn [gbind].
+  rewrite HeaderProofs.de32_be32 by (apply Z.mod_pos_bound; lia). reflexivity.
+Qed.
